@@ -74,9 +74,27 @@ HYGIENE = re.compile(r"\b(Admitted|admit|Axiom|Axioms|Parameter|Parameters|Conje
                      r"Unset Universe Checking)\b|-type-in-type|-impredicative-set")
 
 
+def coq_project_text():
+    """_CoqProject is derived from the files present (Props/, Extract/ and everything they need)"""
+    files = []
+    for dp, _, fs in os.walk(COQ):
+        for f in fs:
+            # Extract/Ex_*.v are compiled by build_modelrun in their own directory (Extraction writes into the cwd)
+            if f.endswith(".v") and os.path.basename(dp) != "Extract":
+                files.append(os.path.relpath(os.path.join(dp, f), COQ))
+    files.sort()
+    head = ("-Q . AG\n-arg -w -arg -notation-overridden,-deprecated-hint-without-locality,"
+            "-deprecated-instance-without-locality\n")
+    return head + "\n".join(files) + "\n"
+
+
 def coq_makefile():
     mk = os.path.join(COQ, "Makefile")
     cp = os.path.join(COQ, "_CoqProject")
+    text = coq_project_text()
+    if not os.path.exists(cp) or open(cp).read() != text:
+        with open(cp, "w") as f:
+            f.write(text)
     if not os.path.exists(mk) or os.path.getmtime(mk) < os.path.getmtime(cp):
         sh("coq_makefile -f _CoqProject -o Makefile", cwd=COQ, check=True)
 
@@ -162,13 +180,19 @@ def coq_build_prop(pid, timeout, allowed_axioms):
                 bad_axioms=bad_ax, failed=failed_thm, rc=rc)
 
 
-def build_modelrun():
-    """extract the models and build ocaml/modelrun (rebuilt when any .v or .ml is newer)"""
-    exdir = os.path.join(BUILD, "extract")
+def build_modelrun(unit="det", ocaml_pkgs="zarith", ocaml_flags=""):
+    """extract unit `unit` (coq/Extract/Ex_<unit>.v) and build its runner ocaml/run_<unit>.ml
+    (rebuilt when any .v or .ml is newer)"""
+    exdir = os.path.join(BUILD, "extract", unit)
     os.makedirs(exdir, exist_ok=True)
     exe = os.path.join(exdir, "modelrun")
     coq_makefile()
-    rc, out = sh("make -j16 Extract/Extract.vo", cwd=COQ, timeout=1800)
+    exsrc = strip_comments(open(os.path.join(COQ, "Extract", "Ex_%s.v" % unit)).read())
+    deps = []
+    for m in re.finditer(r"From\s+AG\s+Require\s+(?:Import|Export)?([^.]*(?:\.[A-Za-z_][^.\s]*)*)\.\s", exsrc):
+        for tok in m.group(1).split():
+            deps.append(tok.replace(".", "/") + ".vo")
+    rc, out = sh("make -j16 %s" % " ".join(deps), cwd=COQ, timeout=3000)
     if rc != 0:
         return None, out
     newest = 0
@@ -176,16 +200,19 @@ def build_modelrun():
         for f in fs:
             if f.endswith(".v"):
                 newest = max(newest, os.path.getmtime(os.path.join(dp, f)))
-    newest = max(newest, os.path.getmtime(os.path.join(ROOT, "ocaml", "modelrun.ml")))
+    for f in ("common.ml", "run_%s.ml" % unit):
+        newest = max(newest, os.path.getmtime(os.path.join(ROOT, "ocaml", f)))
     if os.path.exists(exe) and os.path.getmtime(exe) >= newest:
         return exe, ""
     # Extraction writes model.ml into the cwd of coqc
-    rc, out = sh("coqc -Q %s AG %s/Extract/Extract.v -o %s/Extract.vo" % (COQ, COQ, exdir), cwd=exdir, timeout=600)
+    shutil.copy(os.path.join(COQ, "Extract", "Ex_%s.v" % unit), os.path.join(exdir, "Exrun.v"))
+    rc, out = sh("coqc -Q %s AG Exrun.v" % COQ, cwd=exdir, timeout=1200)
     if rc != 0:
         return None, out
-    shutil.copy(os.path.join(ROOT, "ocaml", "modelrun.ml"), exdir)
-    rc, out2 = sh("ocamlfind ocamlopt -O3 -w -a -package zarith -linkpkg model.mli model.ml modelrun.ml -o modelrun",
-                  cwd=exdir, timeout=600)
+    shutil.copy(os.path.join(ROOT, "ocaml", "common.ml"), exdir)
+    shutil.copy(os.path.join(ROOT, "ocaml", "run_%s.ml" % unit), os.path.join(exdir, "run.ml"))
+    rc, out2 = sh("ocamlfind ocamlopt -O3 -w -a %s -package %s -linkpkg model.mli model.ml common.ml run.ml -o modelrun"
+                  % (ocaml_flags, ocaml_pkgs), cwd=exdir, timeout=1200)
     if rc != 0:
         return None, out + out2
     return exe, ""
